@@ -23,6 +23,7 @@ type Layout struct {
 	StartNr    int    // startNumber of $Number$ templates
 	Text       bool   // add an stpp track (1 sample per video segment, timescale 1000) -- needs whole-ms segments
 	ExtraVideo string // id of a second video representation (same content), "" = none
+	ExtraSegFrames []int // frames per segment of the second video representation (nil = as the first)
 	VideoID    string
 	TimeOffset uint64 // first video tfdt (media time of the first VoD segment)
 	Shift      []int  // Shift[i]: the boundary after video segment i is moved by this many ticks (last frame longer, next first frame shorter)
@@ -117,10 +118,14 @@ func Generate(root, src string, l Layout) error {
 		if err := writeInit(filepath.Join(dir, id, "init.mp4"), video.init, l.VideoTS); err != nil {
 			return err
 		}
-		vsegs = nil
 		t := l.TimeOffset
 		k := 0
-		for si, nf := range l.SegFrames {
+		segFrames := l.SegFrames
+		if id == l.ExtraVideo && l.ExtraSegFrames != nil {
+			segFrames = l.ExtraSegFrames
+		}
+		var mySegs []segT
+		for si, nf := range segFrames {
 			var ss []mp4.FullSample
 			start := t
 			for j := 0; j < nf; j++ {
@@ -145,7 +150,10 @@ func Generate(root, src string, l Layout) error {
 			if err := writeSeg(filepath.Join(dir, id, name), uint32(l.StartNr+si), video.trackID(), ss); err != nil {
 				return err
 			}
-			vsegs = append(vsegs, segT{start, t - start})
+			mySegs = append(mySegs, segT{start, t - start})
+		}
+		if id == vid {
+			vsegs = mySegs
 		}
 	}
 	var asegs []segT
@@ -302,5 +310,7 @@ func NegativeLayouts() []Layout {
 	return []Layout{
 		// loop of 50 frames of 1001/30000 s = 1.668333.. s: not a whole number of milliseconds
 		{Name: "neg_fractional_ms_loop", VideoTS: 30000, FrameDur: 1001, SegFrames: []int{25, 25}, AudioSegs: []int{39, 39}},
+		// two video representations that disagree in total duration (8 s and 6 s)
+		{Name: "neg_video_reps_disagree", VideoTS: 90000, FrameDur: 3000, SegFrames: []int{60, 60, 60, 60}, AudioSegs: []int{94, 94, 94, 93}, ExtraVideo: "V600", ExtraSegFrames: []int{60, 60, 60}},
 	}
 }
